@@ -34,7 +34,7 @@ var NotCovered = []string{
 }
 
 // RunFn is what main hands to Plan: run one BFS.
-type RunFn func(part, cfg string, depth int, names func(p []int) []string, numOps int, opsFor func(path []int, info string) []int, maxFrontier int)
+type RunFn func(part, cfg string, depth int, names func(p []int) []string, numOps int, opsFor func(path []int, info string) []int, share float64)
 
 // Plan lays out the searches of a tier in priority order; the soft deadline cuts the tail
 // (reported as exhaustive=false with the depth completed per search).
@@ -79,9 +79,10 @@ func Plan(thorough bool, run RunFn) {
 			return out
 		}
 	}
+	share := 0.0 // max fraction of the tier budget the next searches may take each (0 = no cap)
 	A := func(mode string, depth, fullDepth int) {
 		if only == "" || only == "A" {
-			run("A", mode, depth, namesA, len(alphaA), aOps(fullDepth), 0)
+			run("A", mode, depth, namesA, len(alphaA), aOps(fullDepth), share)
 		}
 	}
 	// part B: full alphabet up to fullDepth, then only pipeline recipes (let the pipeline drain)
@@ -98,7 +99,7 @@ func Plan(thorough bool, run RunFn) {
 	}
 	B := func(cfg string, depth, fullDepth int) {
 		if only == "" || only == "B" {
-			run("B", cfg, depth, namesB, len(alphaB), bOps(fullDepth), 0)
+			run("B", cfg, depth, namesB, len(alphaB), bOps(fullDepth), share)
 		}
 	}
 	// directed slice around the liveness fallback (needs 4-5 ticks, beyond the full-alphabet depth of
@@ -145,7 +146,7 @@ func Plan(thorough bool, run RunFn) {
 	}
 	F := func(cfg string) {
 		if only == "" || only == "B" || only == "F" {
-			run("B", cfg+"#fallback-slice", 5, namesB, len(alphaB), famOps, 0)
+			run("B", cfg+"#fallback-slice", 5, namesB, len(alphaB), famOps, share)
 		}
 	}
 	if !thorough {
@@ -168,18 +169,26 @@ func Plan(thorough bool, run RunFn) {
 		B("1e3x1e3", 4, 3)
 		return
 	}
-	A("tx", 5, 4)
+	// thorough: breadth first as well; no single search may take more than a quarter of the budget
+	share = 0.25
 	F("1e3x1e3")
 	F("2p63x2p63")
 	F("1x2p62")
+	F("1x1")
+	A("tx", 4, 4)
+	for _, c := range BConfigs {
+		B(c.Name, 3, 3)
+	}
+	A("own", 4, 4)
 	B("1e3x1e3", 4, 3)
-	A("own", 5, 4)
+	A("tx", 5, 4)
+	B("1e3x1e3", 4, 4)
 	B("2p63x2p63", 4, 3)
 	B("1x2p62", 4, 3)
 	B("1x1", 4, 4)
+	A("own", 5, 4)
 	B("1e3x1e3", 5, 4)
 	A("tx", 5, 5)
-	B("2p63x2p63", 5, 4)
 }
 
 // PathA maps recipe names back to alphabet indices (replay artefacts store names).
